@@ -98,11 +98,49 @@ fn peer_params(remote_addr: IpAddr, cfg: &RigCfg) -> PeerParams {
     }
 }
 
-async fn loopback_pair() -> (tokio::net::TcpStream, tokio::net::TcpStream) {
-    let listener = tokio::net::TcpListener::bind("127.0.0.1:0").await.unwrap();
+/// A connected loopback TCP pair, made with blocking std sockets: nothing here waits on the
+/// runtime (its clock is paused; a parked runtime would auto-advance it to the next session timer).
+fn loopback_pair() -> (tokio::net::TcpStream, tokio::net::TcpStream) {
+    let listener = std::net::TcpListener::bind("127.0.0.1:0").unwrap();
     let addr = listener.local_addr().unwrap();
-    let (client, server) = tokio::join!(tokio::net::TcpStream::connect(addr), listener.accept(),);
-    (client.unwrap(), server.unwrap().0)
+    let client = std::net::TcpStream::connect(addr).unwrap();
+    let (server, _) = listener.accept().unwrap();
+    for s in [&client, &server] {
+        s.set_nonblocking(true).unwrap();
+        s.set_nodelay(true).unwrap();
+    }
+    (
+        tokio::net::TcpStream::from_std(client).unwrap(),
+        tokio::net::TcpStream::from_std(server).unwrap(),
+    )
+}
+
+/// Let the runtime's I/O driver run (zero-timeout turns: the paused clock does not move).
+async fn settle() {
+    for _ in 0..3 {
+        tokio::task::yield_now().await;
+    }
+}
+
+/// Poll `fut` until it is ready, turning the runtime's drivers in between; give up (`None`) when it
+/// stays pending over `IDLE_POLLS` turns and a short real pause - the future is then parked at a
+/// point where nothing is left to do (for run_select: its select).
+async fn drive<F: std::future::Future>(fut: F) -> Option<F::Output> {
+    tokio::pin!(fut);
+    let mut idle = 0;
+    loop {
+        if let std::task::Poll::Ready(v) = futures::poll!(fut.as_mut()) {
+            return Some(v);
+        }
+        idle += 1;
+        if idle > IDLE_POLLS {
+            return None;
+        }
+        if idle == IDLE_POLLS - 1 {
+            std::thread::sleep(std::time::Duration::from_micros(250));
+        }
+        tokio::task::yield_now().await;
+    }
 }
 
 // ------------------------------------------------------------------ wire frames (remote speaker side)
@@ -218,11 +256,30 @@ pub(crate) struct Rig {
     pub storm: bool,
 }
 
+/// The case's clock: kept apart from `Rig` (other harnesses build a `Rig` themselves).
+pub(crate) struct Clock {
+    /// start of the case on the runtime's (paused) clock, and the whole seconds passed since
+    pub t0: tokio::time::Instant,
+    pub now_s: u64,
+    /// milliseconds the runtime's clock is ahead of `t0 + now_s`: it grows by one with every action
+    /// and every group of timer expiries, so that (a) a timer re-armed in a later action has a
+    /// different deadline than before (`set`/`kept`), (b) every deadline that belongs to model second
+    /// S lies before `t0 + S s + eps ms` when the clock is moved there (tokio rounds deadlines up to
+    /// its 1 ms grid).  Deadlines and expiry times are reported rounded to whole seconds.
+    pub eps_ms: u64,
+}
+
+impl Clock {
+    pub(crate) fn new() -> Clock {
+        Clock { t0: tokio::time::Instant::now(), now_s: 0, eps_ms: 0 }
+    }
+}
+
 pub(crate) fn idx(r: crate::fsm::Role) -> usize {
     if r == crate::fsm::Role::Active { 0 } else { 1 }
 }
 
-const IDLE: Duration = Duration::from_millis(12);
+const IDLE_POLLS: usize = 5;
 const PUMP_BUDGET: usize = 400;
 
 fn single_deadline(fu: &FuturesUnordered<tokio::time::Sleep>) -> Option<tokio::time::Instant> {
@@ -290,7 +347,7 @@ impl Rig {
 
     /// A new TCP connection of the given role.  `false` = refused by accept_connection.
     pub(crate) async fn connect(&mut self, role: crate::fsm::Role) -> bool {
-        let (client, server) = loopback_pair().await;
+        let (client, server) = loopback_pair();
         let Some(mut sess) = accept_connection(&self.global, &self.tables, server, role).await
         else {
             return false;
@@ -328,7 +385,7 @@ impl Rig {
         true
     }
 
-    /// The remote speaker writes bytes; returns only when they are readable on our side.
+    /// The remote speaker writes bytes (loopback: they are readable on our side when the write returns).
     pub(crate) async fn client_write(&mut self, role: crate::fsm::Role, bytes: &[u8]) -> bool {
         use tokio::io::AsyncWriteExt;
         let Some(c) = self.conns[idx(role)].as_mut() else {
@@ -340,7 +397,7 @@ impl Rig {
         if cl.write_all(bytes).await.is_err() {
             return false;
         }
-        let _ = tokio::time::timeout(Duration::from_secs(2), c.stream.readable()).await;
+        settle().await;
         true
     }
 
@@ -352,7 +409,7 @@ impl Rig {
         self.drain_client(role).await;
         let c = self.conns[idx(role)].as_mut().unwrap();
         c.client = None; // drop = FIN
-        let _ = tokio::time::timeout(Duration::from_secs(2), c.stream.readable()).await;
+        settle().await;
         true
     }
 
@@ -445,6 +502,7 @@ impl Rig {
         let _ = c.stream.shutdown().await;
         let mut frames = Vec::new();
         if let Some(cl) = c.client.as_mut() {
+            settle().await;
             read_all(cl, &mut c.client_rx, true).await;
             frames = take_frames(&mut c.client_rx);
         }
@@ -465,25 +523,22 @@ impl Rig {
                         self.storm = true;
                         return;
                     }
-                    let step = tokio::time::timeout(
-                        IDLE,
-                        c.sess.run_select(
-                            &self.global,
-                            &mut c.stream,
-                            &mut c.rxbuf,
-                            c.remote,
-                            c.local,
-                            &mut c.close_rx,
-                        ),
-                    )
+                    let step = drive(c.sess.run_select(
+                        &self.global,
+                        &mut c.stream,
+                        &mut c.rxbuf,
+                        c.remote,
+                        c.local,
+                        &mut c.close_rx,
+                    ))
                     .await;
                     match step {
-                        Err(_) => break, // idle
-                        Ok(Step::Continue) => {
+                        None => break, // idle
+                        Some(Step::Continue) => {
                             budget -= 1;
                             progressed = true;
                         }
-                        Ok(Step::Terminate {
+                        Some(Step::Terminate {
                             reason,
                             notification,
                         }) => {
@@ -521,6 +576,83 @@ impl Rig {
         }
     }
 
+    /// Move the clock to `t0 + sec s + eps ms` with a fresh, larger `eps`.
+    pub(crate) async fn tick_to(&mut self, clk: &mut Clock, sec: u64) {
+        clk.eps_ms += 1;
+        if clk.eps_ms > 450 {
+            self.storm = true; // the rounding to whole seconds would no longer be safe
+        }
+        let target = clk.t0 + Duration::from_secs(sec) + Duration::from_millis(clk.eps_ms);
+        let now = tokio::time::Instant::now();
+        if target > now {
+            tokio::time::advance(target - now).await;
+        }
+    }
+
+    /// whole model second a deadline belongs to
+    fn sec_of(clk: &Clock, d: tokio::time::Instant) -> u64 {
+        d.saturating_duration_since(clk.t0).as_secs()
+    }
+
+    /// the earliest model second <= `limit` at which some timer of a live session is due
+    fn due_second(&self, clk: &Clock, limit: u64) -> Option<u64> {
+        let mut next: Option<u64> = None;
+        for c in self.conns.iter().flatten() {
+            for d in [
+                single_deadline(&c.sess.holdtime_futures),
+                single_deadline(&c.sess.keepalive_futures),
+            ]
+            .into_iter()
+            .flatten()
+            {
+                let s = Self::sec_of(clk, d);
+                if s <= limit && next.map_or(true, |n| s < n) {
+                    next = Some(s);
+                }
+            }
+        }
+        next
+    }
+
+    /// `d` seconds pass on the runtime's (paused) clock.  Time is moved from one second in which a
+    /// timer of a live session is due (read from the sessions' timer collections) to the next, and the
+    /// sessions are pumped at each: what fires, in which order, with which input and effect is the
+    /// real run_select on real tokio timers.  Returns the frames each remote speaker got and the
+    /// expiries seen (whole seconds since the start, role, hold|ka): a KEEPALIVE on the wire = a
+    /// keepalive-timer expiry, NOTIFICATION (4,0) = a hold-timer expiry.
+    pub(crate) async fn wait(&mut self, clk: &mut Clock, d: u64) -> ([Vec<Term>; 2], Vec<Term>) {
+        let limit = clk.now_s + d;
+        let mut acc: [Vec<Term>; 2] = [Vec::new(), Vec::new()];
+        let mut fired = Vec::new();
+        let mut budget: u64 = 2 * d + 8;
+        while let Some(sec) = self.due_second(clk, limit) {
+            if budget == 0 {
+                self.storm = true;
+            }
+            if self.storm {
+                break;
+            }
+            budget -= 1;
+            let at = sec.max(clk.now_s);
+            self.tick_to(clk, at).await;
+            self.pump().await;
+            for (role, name) in [(crate::fsm::Role::Active, "A"), (crate::fsm::Role::Passive, "P")] {
+                let Term::List(fr) = self.frames(role).await else { continue };
+                for f in fr {
+                    if f.as_atom() == Some("keepalive") {
+                        fired.push(Term::list(vec![Term::nat(sec), Term::atom(name), Term::atom("ka")]));
+                    } else if f.to_string() == "(notif 4 0)" {
+                        fired.push(Term::list(vec![Term::nat(sec), Term::atom(name), Term::atom("hold")]));
+                    }
+                    acc[idx(role)].push(f);
+                }
+            }
+        }
+        clk.now_s = limit;
+        self.tick_to(clk, limit).await;
+        (acc, fired)
+    }
+
     /// Timer probe of one role: (tm <role> (hold set|kept <armed>) (ka set|kept <armed>)) or (tm <role> none).
     pub(crate) fn timers(&mut self, role: crate::fsm::Role, name: &str) -> Term {
         let Some(c) = self.conns[idx(role)].as_mut() else {
@@ -544,21 +676,26 @@ impl Rig {
     }
 }
 
+/// Read what the remote speaker has received; with `until_eof` keep turning the I/O driver until
+/// our close has arrived (bounded: loopback delivery is immediate).
 async fn read_all(cl: &mut TcpStream, buf: &mut Vec<u8>, until_eof: bool) {
     let mut tmp = [0u8; 8192];
+    let mut tries = 0;
     loop {
-        if until_eof {
-            use tokio::io::AsyncReadExt;
-            match tokio::time::timeout(Duration::from_secs(2), cl.read(&mut tmp)).await {
-                Ok(Ok(0)) | Ok(Err(_)) | Err(_) => return,
-                Ok(Ok(n)) => buf.extend_from_slice(&tmp[..n]),
+        match cl.try_read(&mut tmp) {
+            Ok(0) => return,
+            Ok(n) => buf.extend_from_slice(&tmp[..n]),
+            Err(ref e) if e.kind() == std::io::ErrorKind::WouldBlock => {
+                tries += 1;
+                if !until_eof || tries > 200 {
+                    return;
+                }
+                if tries % 8 == 0 {
+                    std::thread::sleep(std::time::Duration::from_micros(250));
+                }
+                tokio::task::yield_now().await;
             }
-        } else {
-            match cl.try_read(&mut tmp) {
-                Ok(0) => return,
-                Ok(n) => buf.extend_from_slice(&tmp[..n]),
-                Err(_) => return,
-            }
+            Err(_) => return,
         }
     }
 }
@@ -612,11 +749,9 @@ fn parse_role(t: &Term) -> Option<crate::fsm::Role> {
 
 /// `(wire (cfg rid asn hold expected) (evs (A|P <action>)*))`; `with_timers` adds the timer probes (C08).
 pub(crate) async fn run_wire(t: &Term, with_timers: bool) -> String {
-    // A wire case takes well under a second; a case that does not come back is reported, not waited for.
-    match tokio::time::timeout(Duration::from_secs(30), run_wire_inner(t, with_timers)).await {
-        Ok(s) => s,
-        Err(_) => "(rig-timeout)".into(),
-    }
+    // The runtime's clock must be paused (c07.rs / c08.rs build it with `start_paused`): the rig never
+    // waits on a tokio timer or on socket readiness, so virtual time moves only in `Rig::wait`.
+    run_wire_inner(t, with_timers).await
 }
 
 async fn run_wire_inner(t: &Term, with_timers: bool) -> String {
@@ -643,6 +778,7 @@ async fn run_wire_inner(t: &Term, with_timers: bool) -> String {
     }
     let local_asn = cfg.asn;
     let mut rig = Rig::new(cfg).await;
+    let mut clk = Clock::new();
     let mut remote_asn: [u32; 2] = [65002, 65002];
     let mut steps = Vec::new();
     for e in evs {
@@ -650,7 +786,14 @@ async fn run_wire_inner(t: &Term, with_timers: bool) -> String {
         let role = parse_role(r).unwrap();
         let live = rig.conns[idx(role)].is_some();
         let head = a.head().or(a.as_atom()).unwrap_or("");
-        let kind: &str = if head == "reset" {
+        let at = clk.now_s;
+        rig.tick_to(&mut clk, at).await;
+        let mut waited: Option<([Vec<Term>; 2], Vec<Term>)> = None;
+        let kind: &str = if head == "wait" {
+            let [d] = a.tagged("wait").unwrap() else { unreachable!() };
+            waited = Some(rig.wait(&mut clk, d.as_u64().unwrap()).await);
+            "step"
+        } else if head == "reset" {
             rig.reset_peer().await;
             "step"
         } else if head == "bfd-down" {
@@ -708,9 +851,7 @@ async fn run_wire_inner(t: &Term, with_timers: bool) -> String {
                 "hold-timer+keepalive" => {
                     rig.client_write(role, &keepalive_frame()).await;
                     rig.expire(role, true);
-                    // let the 0 s deadline pass on the runtime's clock (1 ms granularity) so that
-                    // both the timer and the socket are ready when run_select polls them
-                    tokio::time::sleep(Duration::from_millis(4)).await;
+                    settle().await;
                     "step"
                 }
                 "ka-timer" => {
@@ -731,20 +872,41 @@ async fn run_wire_inner(t: &Term, with_timers: bool) -> String {
         };
         rig.pump().await;
         let mut items = vec![Term::atom(kind)];
-        items.push(Term::tag("to-a", vec![rig.frames(crate::fsm::Role::Active).await]));
-        items.push(Term::tag("to-p", vec![rig.frames(crate::fsm::Role::Passive).await]));
+        let mut fa = rig.frames(crate::fsm::Role::Active).await;
+        let mut fp = rig.frames(crate::fsm::Role::Passive).await;
+        let mut fired_t = None;
+        if let Some((acc, fired)) = waited {
+            let [a0, p0] = acc;
+            if let (Term::List(x), Term::List(y)) = (&mut fa, &mut fp) {
+                let mut a1 = a0;
+                a1.append(x);
+                *x = a1;
+                let mut p1 = p0;
+                p1.append(y);
+                *y = p1;
+            }
+            if !fired.is_empty() {
+                fired_t = Some(Term::tag("fired", fired));
+            }
+        }
+        items.push(Term::tag("to-a", vec![fa]));
+        items.push(Term::tag("to-p", vec![fp]));
         items.push(state_t(rig.fsm_state(crate::fsm::Role::Active)));
         items.push(state_t(rig.fsm_state(crate::fsm::Role::Passive)));
+        if with_timers {
+            items.push(rig.timers(crate::fsm::Role::Active, "A"));
+            items.push(rig.timers(crate::fsm::Role::Passive, "P"));
+        }
+        if let Some(f) = fired_t {
+            items.push(f);
+        }
         // quiescence invariant the duplicate-connection refusal relies on
         for (r, n) in [(crate::fsm::Role::Active, "A"), (crate::fsm::Role::Passive, "P")] {
             if rig.close_channel_installed(r) != rig.conns[idx(r)].is_some() {
                 items.push(Term::tag("close-channel-mismatch", vec![Term::atom(n)]));
             }
         }
-        if with_timers {
-            items.push(rig.timers(crate::fsm::Role::Active, "A"));
-            items.push(rig.timers(crate::fsm::Role::Passive, "P"));
-        }
+
         if rig.storm {
             items.push(Term::atom("storm"));
             steps.push(Term::list(items));
@@ -783,6 +945,7 @@ fn action_ok(a: &Term) -> bool {
         Some("notification") => {
             matches!(a.tagged("notification"), Some([c, s]) if small(c, 255) && small(s, 255))
         }
+        Some("wait") => matches!(a.tagged("wait"), Some([d]) if small(d, 200000)),
         _ => false,
     }
 }
